@@ -581,6 +581,26 @@ type ExtractOptions struct {
 	SlideNumbers   []int // Which slides to include (0-indexed, empty = all)
 	ExcludeHeaders bool  // Exclude header placeholders
 	ExcludeFooters bool  // Exclude footer placeholders (footer, date, slide number)
+
+	HeadingLevelOffset int // Shifts Markdown heading levels (1 makes the slide title H2)
+	MaxHeadingLevel    int // Caps Markdown heading depth (0 = no cap below 6)
+}
+
+// markdownHeadingPrefix returns the ATX marker for a heading of the given source
+// level: shifted by the configured offset, capped at the configured maximum,
+// within 1..6.
+func markdownHeadingPrefix(level int, opts ExtractOptions) string {
+	level += opts.HeadingLevelOffset
+	if opts.MaxHeadingLevel > 0 && level > opts.MaxHeadingLevel {
+		level = opts.MaxHeadingLevel
+	}
+	if level < 1 {
+		level = 1
+	}
+	if level > 6 {
+		level = 6
+	}
+	return strings.Repeat("#", level) + " "
 }
 
 // isFooterPlaceholder returns true if the placeholder type is a footer element.
@@ -710,7 +730,7 @@ func (r *Reader) MarkdownWithOptions(opts ExtractOptions) (string, error) {
 
 		// Slide title as H1
 		if slide.Title != "" {
-			result.WriteString("# ")
+			result.WriteString(markdownHeadingPrefix(1, opts))
 			result.WriteString(slide.Title)
 			result.WriteString("\n\n")
 		}
@@ -810,6 +830,8 @@ func (r *Reader) MarkdownWithRAGOptions(extractOpts ExtractOptions, mdOpts rag.M
 	}
 
 	// Generate main content
+	extractOpts.HeadingLevelOffset = mdOpts.HeadingLevelOffset
+	extractOpts.MaxHeadingLevel = mdOpts.MaxHeadingLevel
 	md, err := r.MarkdownWithOptions(extractOpts)
 	if err != nil {
 		return "", err
